@@ -1001,3 +1001,9 @@ V("c18-key-set-size-dropped", "C18", "break", "R18.10", "generate_key_set no lon
 V("c08-tolerance-outside-loop", "C08", "break", "R08.18", "the handler that tolerates a failing recipient wraps the whole recipients loop",
   "rfc7516/message.py", "    for recipient in obj.recipients:\n        headers = recipient.headers()\n        registry.check_header(headers, True)\n        # Step 6, Determine the Key Management Mode employed by the algorithm\n        # specified by the \"alg\" (algorithm) Header Parameter.\n        alg = registry.get_alg(headers[\"alg\"])\n        try:\n            cek = decrypt_recipient(alg, enc, recipient, tag)\n            cek_set.add(cek)\n        except (AssertionError, JoseError) as error:\n            if registry.verify_all_recipients:\n                raise error\n",
   "    try:\n        for recipient in obj.recipients:\n            headers = recipient.headers()\n            registry.check_header(headers, True)\n            alg = registry.get_alg(headers[\"alg\"])\n            cek = decrypt_recipient(alg, enc, recipient, tag)\n            cek_set.add(cek)\n    except (AssertionError, JoseError) as error:\n        if registry.verify_all_recipients:\n            raise error\n")
+
+V("c19-to-bytes-shares-bytearray", "C19", "break", "R19.13", "to_bytes hands a bytearray back as itself (the caller's buffer stays shared with the key)",
+  "util.py", "    if isinstance(x, bytes):\n        return x\n    if isinstance(x, str):", "    if isinstance(x, (bytes, bytearray)):\n        return x\n    if isinstance(x, str):")
+V("c19-to-bytes-result-variable", "C19", "benign", "", "to_bytes written with one result variable and an elif chain",
+  "util.py", "    if isinstance(x, bytes):\n        return x\n    if isinstance(x, str):\n        return x.encode(charset, errors)\n    if isinstance(x, (int, float)):\n        return str(x).encode(charset, errors)\n    return bytes(x)\n",
+  "    if isinstance(x, bytes):\n        result = x\n    elif isinstance(x, str):\n        result = x.encode(charset, errors)\n    elif isinstance(x, (int, float)):\n        result = str(x).encode(charset, errors)\n    else:\n        result = bytes(x)\n    return result\n")
